@@ -25,7 +25,7 @@ RULE = ('enable masks: 3 bias x 3 walk (only where bias) x 3 noise x 9 scale/mis
         ' Round 3: integer-typed irregular time index (whole seconds); random update / reset / correct / read-back histories on one model against a fresh model holding the same estimates.'
         ' Round 4: disabled axes marked by negative elements (documented) as well as by zeros.')
 ASSUMPTIONS = ['noise scaling is read off deterministically through a RandomState subclass that records randn']
-REQUIRED_OBS = ['negative_disable_marks', 'integer_typed_time_index', 'history_corrections_checked', 'invariant_evaluations', 'roundtrip_checked', 'output_matrix_checked', 'split_updates_checked',
+REQUIRED_OBS = ['rejected_updates', 'negative_disable_marks', 'integer_typed_time_index', 'history_corrections_checked', 'invariant_evaluations', 'roundtrip_checked', 'output_matrix_checked', 'split_updates_checked',
                 'naming_checked', 'noise_scaling_checked', 'walk_scaling_checked', 'from_model_checked']
 REQUIRED_CLASSES = {'quick': ['mask_random'], 'thorough': ['mask_random', 'mask_exhaustive']}
 EXHAUSTIVE = {'quick': False, 'thorough': False}
@@ -318,7 +318,20 @@ def run_case(case):
         shadow = target.copy()
         dts1 = pd.Series(dt if sensor_type == 'increment' else np.ones(m), index=noisy.index)
         for step in range(int(rng.integers(4, 9))):
-            op = str(rng.choice(['update', 'reset', 'correct', 'correct', 'get']))
+            op = str(rng.choice(['update', 'reset', 'correct', 'correct', 'get', 'rejected_update']))
+            if op == 'rejected_update':
+                # an update of the wrong length (the whole filter state instead of the sensor block, a truncated block) is refused - and must leave
+                # no trace: the estimates are still the sum of the ACCEPTED updates
+                for bad_len in (n + 3, max(n - 1, 0)):
+                    if bad_len == n:
+                        continue
+                    try:
+                        model.update_estimates(np.full(bad_len, 0.37))
+                        fail('update_length', f'update_estimates accepted a vector of length {bad_len} for {n} states')
+                    except ValueError:
+                        pass
+                bump('rejected_updates')
+                continue
             if op == 'update':
                 dx = rng.uniform(-1, 1, n) * np.abs(target)
                 model.update_estimates(dx)
